@@ -107,7 +107,10 @@ class Subject:
                 self.ref = RefEntry(merge, init)
         else:
             dims, addr = ADDR[kind]
-            self.table = Table(tuple(d() for d in dims), mp_, rp)
+            # the caller builds its dimensions once, as a LIST, and has already used that list for another table
+            dim_list = [d() for d in dims]
+            Table(dim_list, mp_, rp)
+            self.table = Table(dim_list, mp_, rp)
             self.addr = addr
             self.other = OTHER_ADDR[kind]
             self.ref = RefEntry(merge)
